@@ -42,7 +42,14 @@ pub const STD: usize = 0;
 pub const NONNEG: usize = 1;
 pub const SUB: usize = 2;
 pub const TINY: usize = 3;
-pub const N_CLASSES: usize = 4;
+/// Divisor classes: the value is c/d units of the last kept digit, for each
+/// d of `DIVISORS` (class index `N_FIXED + position`).  Here the operation is
+/// reached through every API route that can express c/d: what a route's rows
+/// can separate depends on d (no ties for odd d, nothing but ties and exact
+/// quotients for d = 2), so each d is a class of its own.
+pub const DIVISORS: [i128; 11] = [2, 3, 4, 5, 6, 7, 8, 9, 16, 25, 125];
+pub const N_FIXED: usize = 4;
+pub const N_CLASSES: usize = N_FIXED + DIVISORS.len();
 
 /// w · 10^-(n+1) rounded to n digits
 pub const W_SUB: [i128; 12] = [1, -1, 5, -5, 7, -7, 3, -3, 4, -4, 6, -6];
@@ -202,7 +209,95 @@ pub fn families() -> Vec<Family> {
             push(format!("display/{}/variant{}/p=1", cname, var), &|w| Op::Fmt { a: (w, t + 1), var, w: 0, p: 1, pauses: vec![], err_at: 0, reent: false });
         }
     }
+    for (di, dv) in DIVISORS.iter().enumerate() {
+        divisor_families(&mut v, N_FIXED + di, *dv);
+    }
     v
+}
+
+/// Numerators for divisor `d`: kept part 1 (odd), 2 (even), 5 and 10 (the
+/// digits Round05Up looks at), remainder smallest / middle (the tie when d is
+/// even) / largest, both signs.
+pub fn numerators(d: i128) -> Vec<i128> {
+    let mut cs = Vec::new();
+    for q in [1i128, 2, 5, 10] {
+        for r in [1, d / 2, d - 1] {
+            let c = q * d + r;
+            if !cs.contains(&c) {
+                cs.push(c);
+                cs.push(-c);
+            }
+        }
+    }
+    cs
+}
+
+fn divisor_families(v: &mut Vec<Family>, class: usize, dv: i128) {
+    let cs = numerators(dv);
+    let cmax = *cs.iter().max().unwrap();
+    let mut push = |name: String, f: &dyn Fn(i128) -> Op| {
+        v.push(Family { name: format!("{}/by{}", name, dv), ops: cs.iter().map(|c| f(*c)).collect(), class });
+    };
+    let e18 = 10i128.pow(18);
+    for f in 0..5u8 {
+        push(format!("div/form{}", f), &|c| Op::Div { a: (c, 18), b: (dv, 0), form: f });
+        push(format!("div/fracdiv/form{}", f), &|c| Op::Div { a: (c, 16), b: (dv * 100, 0), form: f });
+    }
+    for f in 0..4u8 {
+        push(format!("checked_div/form{}", f), &|c| Op::CheckedDiv { a: (c, 18), b: (dv, 0), form: f });
+        push(format!("div_rounded/equal/form{}", f), &|c| Op::DivRounded { a: (c, 2), b: (dv, 0), n: 2, form: f });
+        push(format!("div_rounded/equal-frac/form{}", f), &|c| Op::DivRounded { a: (c, 3), b: (dv, 1), n: 2, form: f });
+        push(format!("div_rounded/less/form{}", f), &|c| Op::DivRounded { a: (c, 0), b: (dv * 100, 0), n: 2, form: f });
+        push(format!("quantize/form{}", f), &|c| Op::Quantize { a: (c, 0), q: (dv, 0), form: f });
+    }
+    for ty in INT_TYS {
+        let id = Int { ty, v: dv };
+        for f in 0..5u8 {
+            push(format!("div_di/{}/form{}", ty.name(), f), &|c| Op::DivDI { a: (c, 18), i: id, form: f });
+        }
+        push(format!("checked_div_di/{}", ty.name()), &|c| Op::CheckedDivDI { a: (c, 18), i: id });
+        push(format!("quantize_di/{}", ty.name()), &|c| Op::QuantizeDI { a: (c, 0), i: id });
+        for f in 0..4u8 {
+            push(format!("div_rounded_di/{}/form{}", ty.name(), f), &|c| Op::DivRoundedDI { a: (c, 2), i: id, n: 2, form: f });
+        }
+        // the numerator as a native integer: signed types that hold ±cmax
+        if ty.signed() && ty.fits(cmax) {
+            for f in 0..4u8 {
+                push(format!("div_id/{}/form{}", ty.name(), f), &|c| Op::DivID { i: Int { ty, v: c }, b: (dv * e18, 0), form: f });
+                push(format!("div_rounded_id/{}/form{}", ty.name(), f), &|c| Op::DivRoundedID { i: Int { ty, v: c }, b: (dv, 0), n: 0, form: f });
+                push(format!("div_rounded_ii/{}/form{}", ty.name(), f), &|c| Op::DivRoundedII { i: Int { ty, v: c }, j: dv, n: 0, form: f });
+            }
+            push(format!("checked_div_id/{}", ty.name()), &|c| Op::CheckedDivID { i: Int { ty, v: c }, b: (dv * e18, 0) });
+            push(format!("quantize_id/{}", ty.name()), &|c| Op::QuantizeID { i: Int { ty, v: c }, q: (dv, 0) });
+            push(format!("quantize_ii/{}", ty.name()), &|c| Op::QuantizeII { i: Int { ty, v: c }, j: dv });
+        }
+    }
+    // d divides a power of ten: the same value as a terminating decimal
+    // m·c / 10^k, through the routes that do not divide
+    let mut k = 0u8;
+    let mut p = 1i128;
+    while p % dv != 0 && k < 6 {
+        p *= 10;
+        k += 1;
+    }
+    if p % dv == 0 {
+        let m = p / dv;
+        for n in [0i8, 2, -1] {
+            let nf = (n + k as i8) as u8;
+            push(format!("round/n={}", n), &|c| Op::Round { a: (m * c, nf), n });
+            push(format!("checked_round/n={}", n), &|c| Op::CheckedRound { a: (m * c, nf), n });
+        }
+        for f in 0..4u8 {
+            push(format!("mul_rounded/form{}", f), &|c| Op::MulRounded { a: (m * c, k + 1), b: (1, 0), n: 1, form: f });
+            push(format!("quantize/decimal/form{}", f), &|c| Op::Quantize { a: (m * c, k + 1), q: (1, 1), form: f });
+        }
+        for f in 0..5u8 {
+            push(format!("mul/form{}", f), &|c| Op::Mul { a: (m * c, 18), b: (1, k), form: f });
+        }
+        for var in 0..N_FMT_VARIANTS {
+            push(format!("display/variant{}/p=1", var), &|c| Op::Fmt { a: (m * c, k + 1), var, w: 0, p: 1, pauses: vec![], err_at: 0, reent: false });
+        }
+    }
 }
 
 #[derive(Debug, Clone)]
